@@ -120,7 +120,7 @@ def parse_assumptions(log):
     """Split coqc output into [(theorem, [axiom names] or [] when closed)]."""
     res = []
     # our Props files print a marker line before every Print Assumptions
-    blocks = re.split(r"^\s*=\s*\"PA:([A-Za-z0-9_']+)\"\s*\n\s*:\s*string\s*$", log, flags=re.M)
+    blocks = re.split(r"^\s*=\s*\"PA:([A-Za-z0-9_']+)\"(?:%string)?\s*\n\s*:\s*string\s*$", log, flags=re.M)
     # blocks = [pre, name1, text1, name2, text2...]
     for k in range(1, len(blocks), 2):
         name, text = blocks[k], blocks[k + 1]
@@ -170,6 +170,7 @@ class Check:
         os.makedirs(REPLAYS, exist_ok=True)
         os.makedirs(GEN, exist_ok=True)
         self.known = load_known(pid)
+        self._crumb = os.environ.get("VERIF_CRUMB")
 
     # ---------------------------------------------------------------- translate
     def translate(self, name, fn, out_name=None):
@@ -268,6 +269,12 @@ class Check:
     # ---------------------------------------------------------------- cases
     def case(self, obj, nontrivial=True, kind=None):
         self.evaluations += 1
+        if self._crumb:
+            try:
+                with open(self._crumb, "w") as f:
+                    f.write(canon({"kind": kind, "case": obj}))
+            except Exception:
+                pass
         h = hashlib.sha1(canon(obj).encode()).hexdigest()
         if h not in self.case_hashes:
             self.case_hashes.add(h)
